@@ -1,0 +1,108 @@
+//go:build verif
+
+package lex
+
+import (
+	"fmt"
+	"strings"
+)
+
+// VerifDump prints the parsed regular expression as an S-expression for the verification harness (/verif):
+// (lit (bytes) off) (blit (bytes) off) (cc ((lo hi)...) off) (rep min max sub) (cat subs) (alt subs) (ext (bytes) off).
+func VerifDump(re *Regexp) string {
+	var sb strings.Builder
+	verifDump(re, &sb)
+	return sb.String()
+}
+
+func verifBytes(sb *strings.Builder, s string) {
+	sb.WriteByte('(')
+	for i := 0; i < len(s); i++ {
+		if i > 0 {
+			sb.WriteByte(' ')
+		}
+		fmt.Fprintf(sb, "%d", s[i])
+	}
+	sb.WriteByte(')')
+}
+
+func verifRanges(sb *strings.Builder, cs []rune) {
+	sb.WriteByte('(')
+	for i := 0; i+1 < len(cs); i += 2 {
+		if i > 0 {
+			sb.WriteByte(' ')
+		}
+		fmt.Fprintf(sb, "(%d %d)", cs[i], cs[i+1])
+	}
+	sb.WriteByte(')')
+}
+
+func verifDump(re *Regexp, sb *strings.Builder) {
+	if re == nil {
+		sb.WriteString("nil")
+		return
+	}
+	switch re.op {
+	case opLiteral, opBytesLiteral:
+		if re.op == opLiteral {
+			sb.WriteString("(lit ")
+		} else {
+			sb.WriteString("(blit ")
+		}
+		verifBytes(sb, re.text)
+		fmt.Fprintf(sb, " %d)", re.offset)
+	case opCharClass:
+		sb.WriteString("(cc ")
+		verifRanges(sb, re.charset)
+		fmt.Fprintf(sb, " %d)", re.offset)
+	case opRepeat:
+		fmt.Fprintf(sb, "(rep %d %d ", re.min, re.max)
+		verifDump(re.sub[0], sb)
+		sb.WriteByte(')')
+	case opConcat, opAlternate, opParen:
+		switch re.op {
+		case opConcat:
+			sb.WriteString("(cat")
+		case opAlternate:
+			sb.WriteString("(alt")
+		default:
+			sb.WriteString("(paren")
+		}
+		for _, s := range re.sub {
+			sb.WriteByte(' ')
+			verifDump(s, sb)
+		}
+		sb.WriteByte(')')
+	case opExternal:
+		sb.WriteString("(ext ")
+		verifBytes(sb, re.text)
+		fmt.Fprintf(sb, " %d)", re.offset)
+	default:
+		sb.WriteString("(unknown)")
+	}
+}
+
+// VerifCharsetOp applies one charset operation to copies of its arguments and returns the flattened result.
+// op: new, invert (max rune from opts), subtract, intersect, fold (ascii = opts.ScanBytes), append (b = lo, hi).
+func VerifCharsetOp(op string, a, b []rune, opts CharsetOptions) []rune {
+	ca := append(charset(nil), a...)
+	cb := append(charset(nil), b...)
+	switch op {
+	case "new":
+		return newCharset(ca)
+	case "invert":
+		ca.invert(opts)
+		return ca
+	case "subtract":
+		ca.subtract(cb)
+		return ca
+	case "intersect":
+		return intersect(ca, cb)
+	case "fold":
+		ca.fold(opts.ScanBytes)
+		return ca
+	case "append":
+		return appendRange(ca, b[0], b[1])
+	}
+	panic("unknown op " + op)
+}
